@@ -120,6 +120,33 @@ impl<'a> Sim<'a> {
             self.bump("rx.duplicate");
             return;
         }
+        // 2b. content hash of the received object, whatever `hashes` / `signatures` / `unsigned` it carries (C05)
+        if self.is_ruma(n) && !dup {
+            if let Some(obj) = conv::j_to_obj(&j) {
+                let real = real::content_hash(&obj);
+                let want = revent::content_hash(&j);
+                match (&real, &want) {
+                    (Outcome::Panic(p), _) => {
+                        self.violate("C05", "rsha/panic.content_hash".into(), json!({"panic":p,"event":clip(&rj::canonical(&j))}));
+                        return;
+                    }
+                    (Outcome::Ok(r), HashResult::Ok(m)) if r.as_slice() != m.as_slice() => {
+                        self.violate("C05", "rsha/content-hash.receipt".into(), json!({"oracle":"rsha","event":clip(&rj::canonical(&j)),"real":refmodel::rb64::encode_std(r),"expected":refmodel::rb64::encode_std(m)}));
+                        return;
+                    }
+                    (Outcome::Err(e), HashResult::Ok(_)) => {
+                        let len = revent::content_hash_input(&j).len();
+                        self.violate("C05", "rsha/size-limit.refused-below-limit".into(), json!({"oracle":"rsha","real_error":e,"hashed_bytes":len,"limit":65535,"note":"content_hash of a received event"}));
+                        return;
+                    }
+                    (Outcome::Ok(_), HashResult::TooLarge(nb)) => {
+                        self.violate("C05", "rsha/size-limit.accepted".into(), json!({"oracle":"rsha","hashed_bytes":nb,"limit":65535,"note":"content_hash of a received event"}));
+                        return;
+                    }
+                    _ => self.bump("hash.content-hash-compared"),
+                }
+            }
+        }
         // 3. signatures + content hash (C03)
         let mverdict = revent::verify_event(&j, &self.keys, v);
         if self.is_ruma(n) {
